@@ -1718,10 +1718,20 @@ class Interp:
 
     def s_ImportFrom(self, node, frame):
         import importlib
+        import importlib.util
+        modname = node.module
         if node.level:
-            raise Unsupported('relative import')
+            # relative import: resolved against the package of the module the function lives in
+            g = frame.info.globals
+            pkg = g.get('__package__') or (g.get('__name__', '').rpartition('.')[0])
+            if not pkg:
+                raise Unsupported('relative import outside a package')
+            try:
+                modname = importlib.util.resolve_name('.' * node.level + (node.module or ''), pkg)
+            except Exception as e:
+                raise PyRaise(e)
         try:
-            mod = importlib.import_module(node.module)
+            mod = importlib.import_module(modname)
         except Exception as e:
             raise PyRaise(e)
         for al in node.names:
@@ -1729,7 +1739,7 @@ class Interp:
                 v = getattr(mod, al.name)
             except AttributeError:
                 try:
-                    v = importlib.import_module(node.module + '.' + al.name)
+                    v = importlib.import_module(modname + '.' + al.name)
                 except Exception as e:
                     raise PyRaise(e)
             frame.locals[al.asname or al.name] = v
